@@ -1,30 +1,29 @@
-\* flush / close of ONE Elasticsearch store under every outcome of the _bulk requests (two chunks, one retry), re-open after a failed close;
-\* repaired variant (records carry a client-generated _id): every invariant holds
+\* wide alphabets for -simulate (behaviours are executed on the real stores); code as it is
 SPECIFICATION Spec
 CONSTANTS
-  TypeOf <- TEsEs
-  Active <- OnlyRc
+  TypeOf <- TMemEs
+  Active <- Both
   HasTrackParams <- TPdrv
-  Keys <- K1
+  Keys <- K2
   TagKey = "tag_u"
-  Vals <- V1
-  Nodes <- N1
-  Ctxs <- CtxOne
-  WorldsOf <- WorldsOne
-  PutArgs <- PutOne
-  ChunkSize = 2
-  MaxRetries = 1
+  Vals <- V12
+  Nodes <- N2
+  Ctxs <- CtxTwo
+  WorldsOf <- WorldsAll
+  PutArgs <- PutSim
+  ChunkSize = 5000
+  MaxRetries = 2
   Alpha <- AlphaAll
   RefreshAlpha <- RBoth
-  MaxRecs = 3
-  MaxClock = 0
-  MaxMeta = 0
-  MaxCalls = 3
-  MaxOpens = 2
+  MaxRecs = 8
+  MaxClock = 6
+  MaxMeta = 4
+  MaxCalls = 8
+  MaxOpens = 4
   ExplicitRel = 5
   ExplicitAbs = 7
-  IdempotentIds = TRUE
-  DocMetaAlways = TRUE
+  IdempotentIds = FALSE
+  DocMetaAlways = FALSE
 VIEW view
 INVARIANT TypeOK
 INVARIANT InvNoLoss
